@@ -49,7 +49,7 @@ def floors(tier):
     scale = 1 if tier == 'quick' else 30
     return {'evaluations': 250 * scale, 'crossval_cases': 80 * scale, 'holdout_cases': 40 * scale,
             'fullstack_cases': 80 * scale, 'fold_predictions_tainted_checked': 500 * scale,
-            'denotation_compared': 250 * scale, 'apply_reducers_checked': 80 * scale}
+            'denotation_compared': 250 * scale, 'apply_reducers_checked': 80 * scale, 'concrete_cases': 100 * scale}
 
 
 # ------------------------------------------------------------------------------------------------ taint monitor
@@ -310,6 +310,147 @@ def check_fullstack(ctx, pre, bases, n):
         ctx.sample({'kind': 'fullstack', 'folds': n, 'expr': exprgen.signature(inner), 'stacked': stacked.show(4)})
 
 
+def check_concrete(ctx, pairs, kind, nbases):
+    """Concrete payloads and *arbitrary* splitter decisions (non-complementary, overlapping, gapped parts): a recording
+    model remembers the record ids it was trained on; the metric receives (true labels, predictions)."""
+    from forml import evaluation, flow
+    from forml.flow._graph import port
+    from forml.io._input import extract
+    from forml.pipeline import ensemble, wrap
+    from vlib import exprgen, graphgen
+
+    ctx.count('evaluations')
+    ctx.count('concrete_cases')
+    size = 1 + max(i for pair in pairs for part in pair for i in part)
+    rows = [(rid, 10 * rid) for rid in range(size)]
+    witness = {'pairs': pairs, 'mode': kind, 'bases': nbases}
+    ctx.shape(('concrete', kind, nbases, tuple(map(lambda p: (tuple(p[0]), tuple(p[1])), pairs))))
+    gc.collect()
+    port.Subscription._PORTS.clear()  # pylint: disable=protected-access
+    source = extract.Operator(exprgen.Const.builder([r[0] for r in rows]), exprgen.Const.builder(rows), exprgen.Unzip.builder())
+    splitter = exprgen.ListFolds.builder(crossvalidator=exprgen.FixedCV(pairs))
+    model = lambda tag: wrap.Operator.mapper(exprgen.Recorder, tag=tag)()
+    try:
+        if kind in ('crossval', 'holdout'):
+            if kind == 'holdout':
+                method = evaluation.HoldOut(splitter=exprgen.ListFolds.builder(crossvalidator=exprgen.FixedCV(pairs[:2])))
+            else:
+                method = evaluation.CrossVal(splitter=splitter, nsplits=len(pairs))
+            metric = evaluation.Function(exprgen.pair_metric, reducer=exprgen.pair_reduce)
+            comp = flow.Composition(source, model('m') >> evaluation.TrainTestScore(metric, method))
+            value = graphgen.evaluate_segment(comp.train)['tail']
+            scored = [value] if value[0] == 'scored' else list(value[1:])
+            folds = pairs[:1] if kind == 'holdout' else pairs
+            if len(scored) != len(folds):
+                ctx.violation('fold-missing-or-repeated', f'{len(scored)} scored partitions for {len(folds)} folds', witness)
+                return
+            for (train, test), (_, true, pred) in zip(folds, scored):
+                ctx.count('fold_predictions_tainted_checked')
+                key = _judge_concrete(train, test, true, pred, 'm')
+                if key:
+                    ctx.violation(key, f'{kind} with parts {train}/{test}: true {true} predictions {pred}', witness)
+                    return
+        else:
+            bases = [model(f'b{i}') for i in range(nbases)]
+            stack = ensemble.FullStack(*bases, splitter=splitter, nsplits=len(pairs),
+                                       appender=exprgen_apply(exprgen.zip_columns), stacker=exprgen_apply(exprgen.concat_rows),
+                                       reducer=exprgen_apply(exprgen.zip_columns))
+            comp = flow.Composition(source, stack >> model('final'))
+            train = graphgen.evaluate_segment(comp.train)
+            final = [n for n in train['nodes'] if isinstance(n, flow.Worker) and n.trained and n.builder.kwargs.get('tag') == 'final']
+            import cloudpickle
+
+            state = cloudpickle.loads(train['value'][id(final[0])])
+            # the final model was trained on the stacked predictions: recover them from the stacked train rows
+            stacked = train['value'][id(_publisher_of(train, final[0]))]
+            position = 0
+            for train_part, test_part in pairs:
+                for rid in test_part:
+                    row = stacked[position]
+                    position += 1
+                    ctx.count('fold_predictions_tainted_checked')
+                    for base, cell in enumerate(row):
+                        if cell[0] != rid or cell[1] != f'b{base}':
+                            ctx.violation('stacked-prediction-misplaced', f'stacked row {position - 1} cell {cell[:2]} expected record {rid} '
+                                          f'of base b{base}', witness)
+                            return
+                        if tuple(cell[2]) != tuple(sorted(train_part)):
+                            key = 'model-trained-on-held-out-part' if set(cell[2]) & set(test_part) else 'model-trained-outside-fold-train-part'
+                            ctx.violation(key, f'record {rid} (held out in fold {pairs.index((train_part, test_part))}) stacked from a model '
+                                          f'trained on {cell[2]} but the training part is {sorted(train_part)}', witness)
+                            return
+            if position != len(stacked):
+                ctx.violation('fold-missing-or-repeated', f'{len(stacked)} stacked rows for {position} held-out records', witness)
+                return
+            expected_labels = tuple(sorted(10 * rid for _, test_part in pairs for rid in test_part))
+            if tuple(state['labels']) != expected_labels:
+                ctx.violation('stacked-labels-differ', f'final model labels {state["labels"]} expected {expected_labels}', witness)
+                return
+    except Exception as err:  # pylint: disable=broad-except
+        ctx.violation('concrete-evaluation-raises', f'{kind} over parts {pairs} raised {err!r}', witness)
+        return
+
+
+def exprgen_apply(function):
+    from forml.pipeline import payload
+
+    return payload.Apply.builder(function=function)
+
+
+def _publisher_of(evaluated, node):
+    """The node feeding the Train port of the given trainer."""
+    from forml.flow._graph import port
+
+    for candidate in evaluated['nodes']:
+        for subscriptions in candidate.output:
+            for sub in subscriptions:
+                if sub.node is node and isinstance(sub.port, port.Train):
+                    return candidate
+    raise LookupError('no train publisher')
+
+
+def _judge_concrete(train, test, true, pred, tag):
+    if list(true) != [10 * rid for rid in test]:
+        return 'truth-of-other-fold' if set(true) != {10 * rid for rid in test} else 'truth-order-differs'
+    if [p[0] for p in pred] != list(test):
+        return 'prediction-on-other-fold-data'
+    for cell in pred:
+        if tuple(cell[2]) != tuple(sorted(train)):
+            return 'model-trained-on-held-out-part' if set(cell[2]) & set(test) else 'model-trained-outside-fold-train-part'
+        if tuple(cell[3]) != tuple(sorted(10 * rid for rid in train)):
+            return 'model-trained-on-other-labels'
+    return None
+
+
+def concrete_pairs(rng):
+    """Arbitrary splitter decisions over 6-12 records: partitions, gapped, overlapping tests, time-series like."""
+    size = rng.randint(6, 12)
+    ids = list(range(size))
+    n = rng.randint(2, 4)
+    style = rng.choice(['partition', 'gapped', 'timeseries', 'shuffle', 'overlap'])
+    pairs = []
+    for i in range(n):
+        if style == 'partition':
+            test = ids[i::n]
+            train = [x for x in ids if x not in test]
+        elif style == 'gapped':
+            test = ids[i::n]
+            train = [x for x in ids if x not in test and (x + 1) not in test]
+        elif style == 'timeseries':
+            cut = max(1, (i + 1) * size // (n + 1))
+            train, test = ids[:cut], ids[cut:cut + max(1, size // (n + 1))]
+        elif style == 'shuffle':
+            shuffled = rng.sample(ids, size)
+            test, train = shuffled[:max(1, size // 4)], shuffled[size // 2:]
+        else:
+            test = rng.sample(ids, max(1, size // 3))
+            train = rng.sample([x for x in ids if x not in test], max(1, size // 3))
+        if not train or not test:
+            train, test = ids[:1], ids[1:2]
+        pairs.append((list(train), list(test)))
+    return pairs
+
+
 def run(ctx):
     from vlib import exprgen
 
@@ -332,10 +473,15 @@ def run(ctx):
                 base = gen.expr(rng.choice([1, 1, 2]), depth=0, scoped_ok=False)
                 bases.append(base)
             check_fullstack(ctx, pre, bases, rng.randint(2, 5))
+    crng = ctx.rng('concrete', ctx.shard)
+    for k in range(ctx.pick(120, 4000) // ctx.nshards):
+        check_concrete(ctx, concrete_pairs(crng), ['crossval', 'holdout', 'fullstack'][k % 3], crng.randint(1, 3))
 
 
 def replay(ctx, witness):
-    if 'kind' in witness:
+    if 'pairs' in witness:
+        check_concrete(ctx, [(list(a), list(b)) for a, b in witness['pairs']], witness['mode'], witness['bases'])
+    elif 'kind' in witness:
         check_traintest(ctx, witness['expr'], witness['kind'], witness['n'])
     else:
         check_fullstack(ctx, witness['pre'], witness['bases'], witness['n'])
